@@ -78,6 +78,15 @@ class TanPlugin(object):
         return None
 
 
+    def length(self, interp, x):
+        if isinstance(x, Opaque) and x.kind == "descs":
+            if "_g_len" not in x.attrs:
+                x.attrs["_g_len"] = z3.Int(fresh_name("n_descs"))
+                interp.path.assume(x.attrs["_g_len"] >= 0)
+            return x.attrs["_g_len"]
+        return NotImplemented
+
+
 def make_item(interp):
     case = interp._case
     tiling = _study._fresh_tiling(interp, "sub_tiling")
@@ -226,3 +235,28 @@ def _(c):
     c.on_path(placement_trace(1))
     # C03 guarantee: each received (image, descriptor) is tiled exactly once; exit only on time-out with the flag read first
     c.on_path(_par.worker_trace("queue", lambda seg, item: sum(1 for e in seg if e[0] in ("loop_summary", "loop_iter") and e[1] == 1) == 1))
+
+
+# ---- C03: the producer of the parallel tiling stage (one put per (image, descriptor), shutdown order) ----------
+def producer_setup(interp, path):
+    case = interp._case
+    coll = Opaque("collection", "collection")
+    me = Inst("MultiTanProcessor", module="toasty.multi_tan", fields={"_collection": coll, "_descs": Opaque("descs", "descs"),
+                                                                   "_n_todo": z3.Int(fresh_name("n_todo"))})
+    par = z3.Int(fresh_name("parallel"))
+    path.assume(par >= 2)
+    from pyvc.values import PyDict
+    return {"self": me, "pio": _pio_inst(case), "cli_progress": False, "parallel": par, "kwargs": PyDict({})}
+
+
+@contract("toasty.multi_tan.MultiTanProcessor._tile_parallel")
+def _(c):
+    c.cases(CASES[0])
+    c.setup(producer_setup)
+    c.local(workers="emptylist => proclist", queue="opaque:queue => queue[tan_item]", done_event="opaque:event => event")
+    c.loop(0, summarise="stateless")
+    c.loop(1, summarise="stateless")
+    c.may_raise("WorkerFailedError", "a failed worker makes the stage fail visibly")
+    c.on_path(_par.producer_trace("toasty.multi_tan._mp_tile_worker",
+                                  lambda env: (env.lookup("queue"), env.lookup("done_event"), env.lookup("pio"), env.lookup("kwargs")),
+                                  item_of=lambda it: it, queue_name="queue"))
